@@ -113,13 +113,34 @@ def confirmed (latest height conf : Nat) : Bool := height + conf < latest
 def eligible (m : List (Nat × Status)) (mt : Dep → Bool) (ds : List Dep) : List Dep :=
   ds.filter fun d => mt d && decide (lookup m d.key ≠ .executed)
 
-/-- P17 (single retry): only eligible deposits, in order; at most one eligible deposit is withheld per failing store
-    call (so all of them are emitted when no call fails); an emitted deposit that was pending is released (failed);
-    nothing else is written — in particular executed stays executed -/
+/-- positional specification of one retry: per deposit of the block, in order, is it re-emitted? A deposit is re-emitted
+    iff it matches the request, ITS OWN status read succeeds, the record is not `executed`, and — if the record is
+    `pending` — ITS OWN release write succeeds. The store calls of a deposit are the next one (read) or two (read, then
+    the release write of a pending record) entries of the fault stream; a non-matching deposit makes no call. -/
+def emitFlags (mt : Dep → Bool) : List (Nat × Status) → List Bool → List Dep → List Bool
+  | _, _, [] => []
+  | m, fs, d :: r =>
+    if !mt d then false :: emitFlags mt m fs r
+    else if fs.head? = some true then false :: emitFlags mt m (fs.drop 1) r      -- own read failed: withheld
+    else match lookup m d.key with
+      | .executed => false :: emitFlags mt m (fs.drop 1) r
+      | .pending =>
+        if (fs.drop 1).head? = some true then false :: emitFlags mt m (fs.drop 2) r   -- own release write failed
+        else true :: emitFlags mt ((d.key, .failed) :: m) (fs.drop 2) r
+      | _ => true :: emitFlags mt m (fs.drop 1) r
+
+/-- the deposits whose flag is set, in block order -/
+def pick : List Dep → List Bool → List Dep
+  | d :: r, true :: fl => d :: pick r fl
+  | _ :: r, false :: fl => pick r fl
+  | _, _ => []
+
+/-- P17 (single retry): exactly the deposits the positional specification names, in block order (hence only eligible
+    ones; all of them when no store call fails); an emitted deposit that was pending is released (failed); nothing else
+    is written — in particular executed stays executed -/
 def P17 (m : List (Nat × Status)) (faults : List Bool) (mt : Dep → Bool) (ds out : List Dep)
     (m' : List (Nat × Status)) : Prop :=
-  out.Sublist (eligible m mt ds) ∧
-  (eligible m mt ds).length ≤ out.length + faults.count true ∧
+  out = pick ds (emitFlags mt m faults ds) ∧
   (∀ d ∈ out, lookup m d.key = .pending → lookup m' d.key = .failed) ∧
   (∀ d ∈ ds, lookup m' d.key = lookup m d.key ∨
       (lookup m d.key = .pending ∧ lookup m' d.key = .failed ∧ ∃ d' ∈ ds, mt d' = true ∧ d'.key = d.key))
